@@ -10,6 +10,8 @@ in :mod:`vtlengine.ViralPropagation.sql`.
 from dataclasses import dataclass, field
 from typing import Any, Dict, List, Optional
 
+from vtlengine import _verif
+
 
 @dataclass
 class ViralPropagationRule:
@@ -78,6 +80,7 @@ _current_registry: Optional[ViralPropagationRegistry] = None
 def get_current_registry() -> ViralPropagationRegistry:
     """Get the current viral propagation registry."""
     global _current_registry  # noqa: PLW0603
+    _verif.yield_point("registry.get")
     if _current_registry is None:
         _current_registry = ViralPropagationRegistry()
     return _current_registry
@@ -86,4 +89,5 @@ def get_current_registry() -> ViralPropagationRegistry:
 def set_current_registry(registry: ViralPropagationRegistry) -> None:
     """Set the current viral propagation registry (called by Interpreter)."""
     global _current_registry  # noqa: PLW0603
+    _verif.yield_point("registry.set")
     _current_registry = registry
